@@ -22,7 +22,8 @@ import elementpath.aliases as ta
 
 from elementpath.protocols import XsdAttributeProtocol
 from elementpath.exceptions import ElementPathError
-from elementpath.namespaces import XSD_NAMESPACE, XSD_NOTATION, XSD_ANY_ATOMIC_TYPE, XSD_UNTYPED
+from elementpath.namespaces import XSD_NAMESPACE, XSD_NOTATION, XSD_ANY_ATOMIC_TYPE, XSD_UNTYPED, \
+    XSD_ANY_TYPE, XSD_ANY_SIMPLE_TYPE
 from elementpath.helpers import numeric_equal, numeric_not_equal, \
     node_position, get_double
 from elementpath.namespaces import XSD_ERROR, get_namespace, get_expanded_name
@@ -762,6 +763,14 @@ def select__element_kind_test(self: XPathFunction, context: ta.ContextType = Non
                 if item.nilled:
                     if self[1].occurrence in ('*', '?'):
                         yield item
+                elif type_annotation == XSD_ANY_TYPE:
+                    yield item  # every type annotation derives from xs:anyType
+                elif type_annotation == XSD_ANY_SIMPLE_TYPE:
+                    if item.xsd_type is not None and item.xsd_type.has_simple_content():
+                        yield item
+                elif item.xsd_type is None and not isinstance(context, XPathSchemaContext):
+                    if type_annotation == XSD_UNTYPED:
+                        yield item  # xs:untyped derives from xs:anyType only
                 elif item.type_name == type_annotation:
                     if type_annotation != XSD_UNTYPED:
                         yield item
